@@ -119,6 +119,9 @@ def ops : List (String × Handler) := [
   ("T.mirror_emap", fun j => do
       let m := mirrorEmap (← jNat (← arg j "n")) (← jNat (← arg j "m")) (← jList (jPair jInt jEvent) (← arg j "emap"))
       pure (ofList (fun (q : Int × MEvent) => Json.arr #[ofInt q.1, ofEvent q.2]) m)),
+  ("T.mirror_micro", fun j => do
+      let m := mirrorMicroMap (← jNat (← arg j "n")) (← jNat (← arg j "m")) (← jList jIv (← arg j "micro"))
+      pure (ofList ofIv m)),
   ("T.mirror_err", fun j => do
       let n ← jNat (← arg j "n")
       let f := mirrorErr n (← jErrTable (← arg j "err"))
